@@ -49,18 +49,19 @@ TextSem ==
    tE    |-> T(0, 0, 0, <<Prelude>>, 0, {6}, 0),              \* synthetic error only (compiler bug)
    tF    |-> T(0, 0, 0, <<Prelude, "f">>, 7, {6}, 1),         \* self import; synthetic then natural
    tG    |-> T(1, 0, 0, <<>>, 0, {}, 0),                      \* lexical error
-   tH    |-> T(0, 0, 0, <<Prelude>>, 0, {}, 1)]               \* accepted by front end, back-end error
+   tH    |-> T(0, 0, 0, <<Prelude>>, 0, {}, 1),               \* accepted by front end, back-end error
+   tN    |-> T(0, 0, 0, <<Prelude, "s">>, 2, {}, 0)]          \* ambiguous name: symbol resolution error
 
 PreludeText == "tPre"
 
 (* File system: directory -> file -> text.  d3 repeats d1's `s` verbatim;  *)
 (* d2 has a *different* text under the same name.                           *)
 FS ==
-  [d1 |-> [a |-> "tA", s |-> "tS1", b |-> "tB", c |-> "tC", d |-> "tD", e |-> "tE", f |-> "tF", g |-> "tG", h |-> "tH"],
+  [d1 |-> [a |-> "tA", s |-> "tS1", b |-> "tB", c |-> "tC", d |-> "tD", e |-> "tE", f |-> "tF", g |-> "tG", h |-> "tH", n |-> "tN"],
    d2 |-> [s |-> "tS2"],
    d3 |-> [s |-> "tS1", a |-> "tA"]]
 
-FileNames == {"a", "s", "b", "c", "d", "e", "f", "g", "h", "missing"}
+FileNames == {"a", "s", "b", "c", "d", "e", "f", "g", "h", "n", "missing"}
 
 Has(d, f) == f \in DOMAIN FS[d]
 RECURSIVE Resolve(_, _)
@@ -74,13 +75,22 @@ C(main, dirs, mode) == [main |-> main, dirs |-> dirs, mode |-> mode]
 DeepChoices ==
   {C("a", <<"d1">>, "inproc"), C("a", <<"d3", "d1">>, "split"), C("a", <<"d2", "d1">>, "inproc"),
    C("d", <<"d2", "d1">>, "inproc")}
+(* generator sets: schedules to replay in-process ("gen"), fresh processes ("cli") *)
+GenChoices == DeepChoices \cup {C("b", <<"d1">>, "inproc"), C("n", <<"d1">>, "inproc")}
+CliMains == {"a", "b", "c", "d", "f", "g", "h", "n", "s"}
+CliChoices ==
+  {C(m, <<"d1">>, mode) : m \in CliMains, mode \in {"inproc", "split"}}
+  \cup {C("a", dirs, "inproc") : dirs \in {<<"d1", "d3">>, <<"d3", "d1">>, <<"d2", "d1">>}}
+  \cup {C("d", <<"d2", "d1">>, mode) : mode \in {"inproc", "split"}}
 Choices ==
-  IF ChoiceSet = "deep" THEN DeepChoices ELSE
+  IF ChoiceSet = "deep" THEN DeepChoices
+  ELSE IF ChoiceSet = "gen" THEN GenChoices
+  ELSE IF ChoiceSet = "cli" THEN CliChoices ELSE
   {C("a", <<"d1">>, "inproc"), C("a", <<"d1", "d3">>, "inproc"), C("a", <<"d3", "d1">>, "split"),
    C("a", <<"d2", "d1">>, "inproc"),                      \* same names, different text of s
    C("b", <<"d1">>, "inproc"), C("c", <<"d1">>, "inproc"), C("d", <<"d1">>, "inproc"),
    C("d", <<"d2", "d1">>, "inproc"),                      \* two cycles (d and its import s)
-   C("f", <<"d1">>, "front"), C("g", <<"d1">>, "inproc"), C("h", <<"d1">>, "split"),
+   C("f", <<"d1">>, "front"), C("g", <<"d1">>, "inproc"), C("h", <<"d1">>, "split"), C("n", <<"d1">>, "inproc"),
    C("s", <<"d1">>, "front")}
   \cup (IF Variant \in {"synthonly", "dropdeferred"} THEN {C("e", <<"d1">>, "inproc")} ELSE {})
 
@@ -321,8 +331,16 @@ Schedule ==
   [n |-> Len(log),
    steps |-> [i \in DOMAIN log |->
                 [p |-> log[i].p, seed |-> log[i].seed, main |-> log[i].main, dirs |-> log[i].dirs,
+                 view |-> log[i].input.view,
                  mode |-> log[i].mode, fresh |-> log[i].fresh, ids |-> log[i].ids,
                  kind |-> log[i].raw.kind]]]
+
+(* sampling restriction for the quick fresh-process family: the two-program path *)
+(* is replayed under one hash seed only                                           *)
+SplitOnlySeedZero == \A p \in Procs : proc[p].job.mode = "split" => proc[p].seed = "0"
+
+(* sampling restriction for the quick in-process family: no process restarts *)
+NoRestart == \A p \in Procs : proc[p].alive \/ Len(log) = 0
 
 GenPrint == (Gen /\ ~Busy /\ Len(log) = MaxCompiles) => PrintT(ToJson(Schedule))
 
